@@ -249,6 +249,7 @@ def build_and_check(ob, tierdir):
             cmd2 = [c for c in cmd if c != '--object-bits']
             cmd2 = [c for i, c in enumerate(cmd2) if not (i > 0 and cmd[i - 1] == '--object-bits')] + ['--object-bits', str(bits)]
             r['cbmc_cmd'] = ' '.join(cmd2)
+            r['object_bits'] = bits
             rc, dt, st = run_cmd(cmd2, d, ob.timeout, ob.mem, os.path.join(d, 'cbmc.log'))
             if st != 'ok':
                 break
@@ -349,8 +350,8 @@ def trace_inputs(ob, r):
         cmd += ['--unwinding-assertions']
     if ob.unwindset:
         cmd += ['--unwindset', ','.join(ob.unwindset)]
-    if ob.object_bits:
-        cmd += ['--object-bits', str(ob.object_bits)]
+    if ob.object_bits or r.get('object_bits'):
+        cmd += ['--object-bits', str(r.get('object_bits') or ob.object_bits)]
     rc, dt, st = run_cmd(cmd, d, ob.timeout, ob.mem, os.path.join(d, 'trace.json'))
     if st != 'ok':
         return None, 'trace run %s' % st
